@@ -380,6 +380,20 @@ def _source_arg(w, data: bytes, a: dict, key="src", fname="file.bin"):
     s = a.get(key) or {}
     via = s.get("via", "stream")
     fault = s.get("fault")
+    if via == "buffer" and fault:
+        via = "stream"      # faults are injected through the simulated stream object
+    if via == "buffer":
+        # one io.BytesIO the caller keeps and refills for every call ("render each picture into the same buffer")
+        import io
+        buf = w.scratch.get("reused_buffer")
+        if buf is None:
+            buf = w.scratch["reused_buffer"] = io.BytesIO()
+        buf.seek(0)
+        buf.truncate()
+        buf.write(data)
+        buf.seek(s.get("pos", 0) if s.get("pos", 0) <= len(data) else 0)
+        w.stats.hit("source_buffer_object_reused")
+        return buf, None
     if via == "path":
         if fault and fault.get("kind") == "missing":
             w.faults.hit("source_missing_path")
@@ -405,7 +419,7 @@ def w_scratch():
 
 
 def g_src(r, fault_rate=0.0, nbytes_hint=200):
-    d = {"via": r.choice(["stream", "stream", "path"]), "pos": r.choice([0, 0, 7, 10 ** 6])}
+    d = {"via": r.choice(["stream", "stream", "path", "buffer"]), "pos": r.choice([0, 0, 7, 10 ** 6])}
     if d["via"] == "path":
         d["fname"] = "in%d.%s" % (r.randint(0, 3), r.choice(gens.MISLEADING_EXT))
     if r.random() < fault_rate:
